@@ -79,7 +79,7 @@ var mgrApp *tars.VerifApp
 func managerPhase(r *rand.Rand) {
 	mgrApp = tars.VerifNewApp()
 	rounds := run.Pick(3, 30)
-	kinds := []string{"static-then-mixed", "loop-then-static", "superset-then-subset", "status-check-removes-endpoint", "mixed-then-static"}
+	kinds := []string{"static-then-mixed", "loop-then-static", "superset-then-subset", "status-check-removes-endpoint", "mixed-then-static", "weight-changed-while-down"}
 	for round := 0; round < rounds; round++ {
 		for ki, kind := range kinds {
 			managerScenario(r, round*len(kinds)+ki, kind)
@@ -129,6 +129,7 @@ func managerScenario(r *rand.Rand, id int, kind string) {
 	var first, final []registry.Endpoint
 	weighted := false
 	victim := -1
+	recover := false
 	switch kind {
 	case "static-then-mixed":
 		first = mk(all, rw(1))
@@ -155,6 +156,17 @@ func managerScenario(r *rand.Rand, id int, kind string) {
 			}
 		}
 		final = mk(idx, rw(0)[:len(idx)])
+	case "weight-changed-while-down":
+		// static weights; the victim fails and is taken out; while it is out the registry changes
+		// its weight; it recovers through a probe.  A fresh client sees the new weight only.
+		ws := rw(1)
+		first = mk(all, ws)
+		victim = (id / 6) % n
+		ws2 := append([]wspec(nil), ws...)
+		ws2[victim] = wspec{ws[victim].w%6 + 3, 1}
+		final = mk(all, ws2)
+		weighted = true
+		recover = true
 	case "status-check-removes-endpoint":
 		first = mk(all, rw(0))
 		victim = (id / 5) % n
@@ -219,6 +231,37 @@ func managerScenario(r *rand.Rand, id int, kind string) {
 			run.Inconclusive(fmt.Sprintf("manager scenario %d: the refusing endpoint was not taken out of rotation by 12 status checks (C15's matter)", id))
 			return
 		}
+		if recover {
+			regA.set(final)
+			if err := a.SP.VerifRefresh(); err != nil {
+				run.Inconclusive("manager scenario: refresh failed: " + err.Error())
+				return
+			}
+			// the victim comes back on the same address; 35 s later a status check queues a probe,
+			// the next call is that probe, its success reinstates the endpoint
+			back := false
+			for i := 0; i < 100 && !back; i++ {
+				if sv, err := netlab.NewScriptServerAt(srvs[victim].addr, srvs[victim].handler); err == nil {
+					srvs[victim].srv, srvs[victim].down, back = sv, false, true
+				} else {
+					time.Sleep(10 * time.Millisecond)
+				}
+			}
+			in := false
+			for attempt := 0; attempt < 8 && back && !in; attempt++ {
+				a.SP.VerifShiftHealthClock(35)
+				a.SP.VerifCheckStatus()
+				for i := 0; i < 2*n && !in; i++ {
+					route(a, "A-probe", -1, 0)
+					time.Sleep(5 * time.Millisecond)
+					in = len(a.SP.VerifActiveEndpoints()) == n
+				}
+			}
+			if !in {
+				run.Inconclusive(fmt.Sprintf("manager scenario %d: the recovered endpoint did not return to rotation (C15's matter)", id))
+				return
+			}
+		}
 	} else {
 		regA.set(final)
 		if err := a.SP.VerifRefresh(); err != nil {
@@ -252,6 +295,11 @@ func managerScenario(r *rand.Rand, id int, kind string) {
 	judged := 0
 	for _, code := range codes {
 		for _, ht := range []int{0, 1} {
+			if ht == 0 && recover {
+				// an endpoint that returns through a probe is appended to the mod-hash list (Add), so the
+				// slot order legitimately depends on that history; only consistent hashing must not
+				continue
+			}
 			ra, rb := route(a, "A", ht, code), route(b, "B", ht, code)
 			if ra < 0 || rb < 0 {
 				run.Add("manager_calls_failed_not_judged", 1)
